@@ -174,6 +174,29 @@ func pureExec(line string) string {
 				return "err"
 			}
 			return "ok " + world.EncStr(out[0])
+		case "fmtentries": // nftid,nftid,... owner,owner,...  : the i-th owner is what the chain of the i-th NFT answers (first mention of a chain wins)
+			ids := strings.Split(f[1], ",")
+			owners := strings.Split(f[2], ",")
+			subs := map[string]subscriber.Subscriber{}
+			var raw []string
+			for i, t := range ids {
+				id := S(t)
+				raw = append(raw, id)
+				if n, err := ctypes.ParseNftId(id); err == nil {
+					if _, have := subs[n.ChainId]; !have {
+						subs[n.ChainId] = &stubSub{id: n.ChainId, owner: S(owners[i])}
+					}
+				}
+			}
+			out, err := feeder.VerifGatherNftOwnerData(subs, raw, 1)
+			if err != nil {
+				return "err"
+			}
+			var enc []string
+			for _, o := range out {
+				enc = append(enc, world.EncStr(o))
+			}
+			return "ok " + strings.Join(enc, ",")
 		case "calcfees":
 			ofp := sdk.MustNewDecFromStr(f[1])
 			var fees sdk.Coins
@@ -352,7 +375,17 @@ func genPure(r *rng.R, n int) []string {
 	add := func(format string, a ...interface{}) { ops = append(ops, fmt.Sprintf(format, a...)) }
 	E := world.EncStr
 	for i := 0; i < n; i++ {
-		switch r.N(18) {
+		switch r.N(19) {
+		case 18:
+			// one round's sources on several chains: every NFT is looked up on its own chain
+			k := 2 + r.N(2)
+			var ids, owners []string
+			for j := 0; j < k; j++ {
+				c := rng.Pick(r, []string{"1", "137", "eth-2"})
+				ids = append(ids, E(c+"/"+string(ctypes.NormalizeHexAddress(randHexDigits(r)))+"/"+string(ctypes.NormalizeHexAddress(randHexDigits(r)))))
+				owners = append(owners, E(randAddr(r)))
+			}
+			add("fmtentries %s %s", strings.Join(ids, ","), strings.Join(owners, ","))
 		case 17:
 			add("utf8 %s", E(randBytes(r)))
 		case 16:
